@@ -192,6 +192,15 @@ class Engine:
             s.maybe_dump(st, bad, kind, msg)
         elif r == 'sat':
             s.vc_count(kind, 'violated')
+            memo = st.__dict__.get('flmemo')
+            if memo and s.cfg.get('fp') == 'real':
+                # prefer a counterexample that does not lean on the rounding slack (all roundings exact): it replays natively
+                try:
+                    exact = [res.t == e for (e, res) in memo.values() if not res.exact]
+                    if exact:
+                        r3, m3 = s.query(st, z3.And(bad, *exact))
+                        if r3 == 'sat' and m3 is not None: m = m3
+                except Exception: pass
             s.record_violation(st, kind, msg, m, bad)
         else:
             s.vc_count(kind, 'unknown')
